@@ -97,6 +97,42 @@ def make_config(rng, opt, perturbed=None, pop_factor=None, max_cycles=None, stop
     return base, klass
 
 
+def optional_variants(opt):
+    """validator-accepted configurations that set ONE optional parameter (left at its default by the documented
+    configuration) to a non-default value: reaches the non-default branches of an algorithm deterministically"""
+    base = dict(base_configs()[opt])
+    out = []
+    fields = env.config_class(opt).model_fields
+    for k in sorted(fields):
+        if k in base or k in ("early_stopping", "fitness_error"):
+            continue
+        d = fields[k].default
+        if isinstance(d, bool):
+            cands = [not d]
+        elif isinstance(d, int):
+            cands = [d + x for x in (-2, -1, 1, 2, 3)]
+        elif isinstance(d, float):
+            cands = [d * 0.5, d * 1.5]
+        else:
+            continue
+        for v in cands:
+            trial = dict(base)
+            trial[k] = v
+            if config_valid(opt, trial):
+                out.append(trial)
+    return out
+
+
+_ALL_VARIANTS = None
+
+
+def all_optional_variants():
+    global _ALL_VARIANTS
+    if _ALL_VARIANTS is None:
+        _ALL_VARIANTS = [(o, c) for o in opt_names() for c in optional_variants(o)]
+    return _ALL_VARIANTS
+
+
 # ---------------------------------------------------------------------------------------------------------------
 def _bounds(rng, style=None):
     style = style or rng.choice(["sym", "sym", "pos", "neg", "zero_lo", "zero_hi", "asym", "narrow", "huge", "tiny"])
